@@ -100,11 +100,14 @@ pub struct CM {
     pub start: nat,         // char index where the text of the token being lexed starts   (`index`)
     pub read: nat,          // how many chars the CharIndices iterator has yielded          (`chars`, `offset`)
     pub pending: bool,      // the char read last is pushed back: chars[read - 1]           (`pending`)
+    pub index_ok: bool,     // the real `index` is the byte offset of chars[start]; false after the end-of-input path of
+                            // current_str / drain, which park `index` at `source.len() - 1`
 }
 impl CM {
     pub open spec fn eff(&self) -> nat { if self.pending { (self.read - 1) as nat } else { self.read } }
     pub open spec fn wf(&self) -> bool {
         self.read <= self.chars.len() && (self.pending ==> self.read >= 1) && self.start <= self.eff()
+            && (!self.index_ok ==> !self.pending && self.read == self.chars.len())
     }
     pub open spec fn measure(&self) -> nat { (self.chars.len() - self.read + (if self.pending { 1nat } else { 0nat })) as nat }
 }
@@ -126,6 +129,7 @@ impl<'a> Cursor<'a> {
         ensures
             final(self).source == old(self).source, final(self).err == old(self).err,
             final(self).m@.chars == old(self).m@.chars, final(self).m@.start == old(self).m@.start, !final(self).m@.pending,
+            final(self).m@.index_ok == old(self).m@.index_ok,
             old(self).m@.pending ==> final(self).offset == old(self).offset,
             // `self.offset = pos`: the byte position of the char just read
             (!old(self).m@.pending && old(self).m@.read < old(self).m@.chars.len()) ==> final(self).offset == byte_off(old(self).m@.chars, old(self).m@.read as int),
@@ -139,7 +143,7 @@ impl<'a> Cursor<'a> {
         requires old(self).m@.wf(), !old(self).m@.pending
         ensures
             final(self).source == old(self).source, final(self).err == old(self).err,
-            final(self).m@.chars == old(self).m@.chars, final(self).m@.start == old(self).m@.start,
+            final(self).m@.chars == old(self).m@.chars, final(self).m@.start == old(self).m@.start, final(self).m@.index_ok == old(self).m@.index_ok,
             old(self).m@.read < old(self).m@.chars.len() ==> final(self).m@.read == old(self).m@.read + 1
                 && r == (old(self).m@.chars[old(self).m@.read as int] == c) && final(self).m@.pending == !r,
             old(self).m@.read >= old(self).m@.chars.len() ==> !r && final(self).m@.read == old(self).m@.read && !final(self).m@.pending,
@@ -147,31 +151,33 @@ impl<'a> Cursor<'a> {
     /// text of the token up to and including the char read last; peeks one more char and pushes it back
     #[verifier::external_body]
     pub fn current_str(&mut self) -> (r: &'a str)
-        requires old(self).m@.wf()
+        requires old(self).m@.wf(), old(self).m@.index_ok,
+            // at the end of the input the body computes `self.source.len() - 1`: the source must not be empty
+            old(self).m@.read >= old(self).m@.chars.len() ==> old(self).m@.chars.len() >= 1
         ensures
             final(self).source == old(self).source, final(self).err == old(self).err, final(self).m@.chars == old(self).m@.chars,
             r@ =~= old(self).m@.chars.subrange(old(self).m@.start as int, old(self).m@.read as int),
             final(self).m@.start == old(self).m@.read,
-            old(self).m@.read < old(self).m@.chars.len() ==> final(self).m@.read == old(self).m@.read + 1 && final(self).m@.pending,
-            old(self).m@.read >= old(self).m@.chars.len() ==> final(self).m@.read == old(self).m@.read && !final(self).m@.pending,
+            old(self).m@.read < old(self).m@.chars.len() ==> final(self).m@.read == old(self).m@.read + 1 && final(self).m@.pending && final(self).m@.index_ok,
+            old(self).m@.read >= old(self).m@.chars.len() ==> final(self).m@.read == old(self).m@.read && !final(self).m@.pending && !final(self).m@.index_ok,
     { unimplemented!() }
     /// text of the token up to but excluding the char read last, which is pushed back
     #[verifier::external_body]
     pub fn prev_str(&mut self) -> (r: &'a str)
-        requires old(self).m@.wf(), old(self).m@.read >= 1, old(self).m@.start <= old(self).m@.read - 1
+        requires old(self).m@.wf(), old(self).m@.index_ok, old(self).m@.read >= 1, old(self).m@.start <= old(self).m@.read - 1
         ensures
             final(self).source == old(self).source, final(self).err == old(self).err, final(self).m@.chars == old(self).m@.chars,
             r@ =~= old(self).m@.chars.subrange(old(self).m@.start as int, old(self).m@.read - 1),
-            final(self).m@.start == old(self).m@.read - 1, final(self).m@.read == old(self).m@.read, final(self).m@.pending,
+            final(self).m@.start == old(self).m@.read - 1, final(self).m@.read == old(self).m@.read, final(self).m@.pending, final(self).m@.index_ok,
     { unimplemented!() }
     /// the rest of the source from the token start (`source.len() - 1` underflows on an empty source)
     #[verifier::external_body]
     pub fn drain(&mut self) -> (r: &'a str)
-        requires old(self).m@.wf(), old(self).m@.chars.len() >= 1
+        requires old(self).m@.wf(), old(self).m@.index_ok, old(self).m@.chars.len() >= 1, old(self).m@.read == old(self).m@.chars.len()
         ensures
             final(self).source == old(self).source, final(self).err == old(self).err, final(self).m@.chars == old(self).m@.chars,
             r@ =~= old(self).m@.chars.subrange(old(self).m@.start as int, old(self).m@.chars.len() as int),
-            final(self).m@.start == old(self).m@.chars.len(), final(self).m@.read == old(self).m@.read, !final(self).m@.pending,
+            final(self).m@.start == old(self).m@.chars.len(), final(self).m@.read == old(self).m@.read, !final(self).m@.pending, !final(self).m@.index_ok,
     { unimplemented!() }
     pub fn err(&mut self) -> (r: Option<Error>) ensures r == old(self).err, *final(self) == *old(self) {
         match &self.err { Some(e) => Some(e.clone()), None => None }
@@ -409,7 +415,7 @@ UNIT = {
              rewrites=[("token.data.to_string()", "str_to_string(token.data)", 1)], props=["C03", "C01", "C02"]),
     
         dict(file=LX, kind="fn", name="unterminated_spread_operator", container=r"Cursor<'a>", container_name="Cursor", wrap="impl<'a> Cursor<'a>",
-             clauses=[("requires", "wf", "old(self).m@.wf()"),
+             clauses=[("requires", "wf", "old(self).m@.wf() && old(self).m@.index_ok && old(self).m@.chars.len() >= 1"),
                       ("ensures", "is_error", "r is Err"),
                       ("ensures", "idle_again", "final(self).idle() && final(self).m@.chars == old(self).m@.chars && final(self).source == old(self).source"),
                       ("ensures", "item_is_next_piece_of_input", "final(self).m@.start >= old(self).m@.eff() && item_text(r) =~= final(self).emitted(old(self))")],
@@ -417,7 +423,7 @@ UNIT = {
         dict(file=LX, kind="fn", name="eof", container=r"Cursor<'a>", container_name="Cursor", wrap="impl<'a> Cursor<'a>",
              clauses=[("requires", "wf", "old(self).m@.wf() && !old(self).m@.pending && old(self).m@.read == old(self).m@.chars.len()"),
                       ("requires", "start_state_has_consumed_nothing", "state is Start ==> old(self).m@.start == old(self).m@.read && token.kind is Eof && token.data@ =~= Seq::<char>::empty()"),
-                      ("requires", "other_states_have_consumed_something", "!(state is Start) ==> old(self).m@.start < old(self).m@.read && !(token.kind is Eof)"),
+                      ("requires", "other_states_have_consumed_something", "!(state is Start) ==> old(self).m@.start < old(self).m@.read && !(token.kind is Eof) && old(self).m@.index_ok"),
                       ("requires", "grammar_state", "state_inv(state, consumed(&*old(self)), token.kind)"),
                       ] + ADV_POST + [KIND_POST],
              hints=[("body_start", None, "proof { lemma_step(consumed(&*self), 'x'); }")],
@@ -433,7 +439,7 @@ UNIT = {
              loops=[dict(invariant=[
                  ("wf", "self.m@.wf(), self.m@.chars == old(self).m@.chars, self.source == old(self).source, self.m@.start == old(self).m@.start"),
                  ("start_state", "state is Start ==> self.m@.eff() == self.m@.start && token.kind is Eof && token.data@ =~= Seq::<char>::empty()"),
-                 ("other_states", "!(state is Start) ==> self.m@.start < self.m@.eff() && !(token.kind is Eof)"),
+                 ("other_states", "!(state is Start) ==> self.m@.start < self.m@.eff() && !(token.kind is Eof) && self.m@.index_ok"),
                  ("grammar_state", "state_inv(state, consumed(&*self), token.kind)"),
                  ("source_is_the_model", "self.source@ == self.m@.chars && byte_off(self.m@.chars, self.m@.chars.len() as int) <= usize::MAX"),
                  ("no_pushback_inside_escape", "state is StringLiteralEscapedUnicode ==> !self.m@.pending"),
